@@ -62,7 +62,7 @@ def gen_dev(rng):
         t = rng.randrange(32)
     return {"type": t, "qual": rng.choice([0, 0, 0, 1, 3, rng.randrange(8)]), "transport": rng.choice(["sgio", "iscsi", "sgio", "iscsi", "plain"]),
             "inq_len": rng.choice([36, 96, 96, 96, 128, 164, 255]), "lun": rng.choice([0, 0, 1, 3]),
-            "decoy_type": rng.choice([0, 1, 5, 8, 3])}
+            "decoy_type": rng.choice([0, 1, 5, 8, 3]), "shared_portal": rng.random() < 0.4}
 
 
 def generate(rng, idx, tier):
@@ -101,6 +101,11 @@ def enumerated(k, tier):
             "ops": [{"op": "attach", "dev": 0, "new_facade": True}, {"op": "followup", "seed": k}, {"op": "followup", "seed": k + 1}]}
 
 
+def _portal(n, spec):
+    # several targets may live behind one portal (one storage array, many target names)
+    return "10.0.0.9:3260" if spec.get("shared_portal") else "10.0.0.%d:3260" % (n + 1)
+
+
 def _mk_lu(t, q, ident):
     return T.make_lu(t, q, ident)
 
@@ -124,7 +129,7 @@ def _open(spec, n):
         return PlainDevice(E.spc, lu, None), lu
     SCSI, SCSIDevice, ISCSIDevice = worlds.lib()
     lun = spec.get("lun", 0)
-    key = ("10.0.0.%d:3260" % (n + 1), "iqn.2026-10.verif:tgt%d" % n, lun)
+    key = (_portal(n, spec), "iqn.2026-10.verif:tgt%d" % n, lun)
     WORLD.iscsi_targets[key] = lu
     if lun != 0:
         # another logical unit of another type lives at LUN 0 of the same target: it must never be addressed
@@ -219,7 +224,7 @@ def execute(prog):
             elif specs[n]["transport"] == "plain":
                 devs[n].lu = lu
             else:
-                key = ("10.0.0.%d:3260" % (n + 1), "iqn.2026-10.verif:tgt%d" % n, specs[n].get("lun", 0))
+                key = (_portal(n, specs[n]), "iqn.2026-10.verif:tgt%d" % n, specs[n].get("lun", 0))
                 WORLD.iscsi_targets[key] = lu
             specs[n]["retyped"] = True
             specs[n]["stale"] = True      # the facade has not looked at this device since
